@@ -117,7 +117,7 @@ theorem expandDef_eq (ns : NS) : (d : Def) → wfDef d = true →
     expandDef c ns d = specDef c.infl ns.style ns.pfx.denote d
   | .wrap w d, h => by
     simp only [wfDef] at h
-    simp only [expandDef, specDef, hf w ns]
+    simp only [expandDef, specDef, hf.1 w ns]
     exact expandDef_eq ns d h
   | .struct a fs, h => by
     simp only [wfDef] at h
@@ -202,10 +202,8 @@ theorem sgDef_eq (ns : NS) : (d : Def) → wfDef d = true →
     sgDef c ns d = specSgDef c.infl ns.style ns.pfx.denote (eraseDef d)
   | .wrap w d, h => by
     simp only [wfDef] at h
-    simp only [sgDef, eraseDef, hf w ns]
-    cases hw : w.forwardsSampleGroup with
-    | false => simp [specSgDef, specSgFields]
-    | true => simpa [specSgDef] using sgDef_eq ns d h
+    simp only [sgDef, eraseDef, hf.1 w ns, hf.2 w, if_true, specSgDef]
+    exact sgDef_eq ns d h
   | .struct a fs, h => by
     simp only [wfDef] at h
     simp only [sgDef, eraseDef, specSgDef]
@@ -318,62 +316,13 @@ theorem specSgField_chain_irrel (infl : Infl) (st : Style) (ch ch' : Str) (a : A
   | .flattenEntry items sg, _ => rfl
 end
 
-/- a definition that is `silentDef` reports no pair under the documented function -/
-mutual
-theorem specSgDef_silent (infl : Infl) (st : Style) (ch : Str) : (d : Def) → silentDef d = true →
-    specSgDef infl st ch d = []
-  | .wrap w d, h => by
-    simp only [silentDef] at h
-    simp only [specSgDef]
-    exact specSgDef_silent infl st ch d h
-  | .struct a fs, h => by
-    simp only [silentDef] at h
-    simp only [specSgDef]
-    exact specSgFields_silent infl _ ch a fs h
-  | .enum a tag vi vn tuple fs, h => by
-    simp only [silentDef, Bool.and_eq_true, Bool.not_eq_true'] at h
-    simp only [specSgDef, specSgFields_silent infl _ ch a fs h.2, List.append_nil]
-    cases tag with
-    | none => rfl
-    | some t => simp [h.1]
-theorem specSgFields_silent (infl : Infl) (st : Style) (ch : Str) (a : Attrs) :
-    (fs : Fields) → silentFields fs = true → specSgFields infl st ch a fs = []
-  | .nil, _ => rfl
-  | .cons f fs, h => by
-    simp only [silentFields, Bool.and_eq_true] at h
-    simp only [specSgFields, specSgField_silent infl st ch a f h.1,
-      specSgFields_silent infl st ch a fs h.2, List.append_nil]
-theorem specSgField_silent (infl : Infl) (st : Style) (ch : Str) (a : Attrs) :
-    (f : Field) → silentField f = true → specSgField infl st ch a f = []
-  | .plain ident ov unit sg v, h => by
-    simp only [silentField, Bool.not_eq_true'] at h
-    simp [specSgField, h]
-  | .ignore, _ => rfl
-  | .timestamp, _ => rfl
-  | .flatten p present child, h => by
-    simp only [silentField, Bool.or_eq_true, Bool.not_eq_true'] at h
-    simp only [specSgField]
-    cases present with
-    | false => rfl
-    | true =>
-      have hc : silentDef child = true := by simpa using h
-      simpa using specSgDef_silent infl st _ child hc
-  | .flattenEntry items sg, h => by
-    simp only [silentField, List.isEmpty_iff] at h
-    simp [specSgField, h]
-end
-
 mutual
 theorem specSgDef_erase (infl : Infl) (st : Style) (ch : Str) : (d : Def) → sgPrefixFree d = true →
     specSgDef infl st ch (eraseDef d) = specSgDef infl st ch d
   | .wrap w d, h => by
-    simp only [sgPrefixFree, Bool.and_eq_true, Bool.or_eq_true] at h
-    simp only [eraseDef]
-    cases hw : w.forwardsSampleGroup with
-    | true => simpa [specSgDef] using specSgDef_erase infl st ch d h.2
-    | false =>
-      have hs : silentDef d = true := by simpa [hw] using h.1
-      simp [specSgDef, specSgFields, specSgDef_silent infl st ch d hs]
+    simp only [sgPrefixFree] at h
+    simp only [eraseDef, specSgDef]
+    exact specSgDef_erase infl st ch d h
   | .struct a fs, h => by
     simp only [sgPrefixFree] at h
     simp only [eraseDef, specSgDef]
@@ -433,7 +382,7 @@ theorem c07_limits_consistent : Generated.Naming.haveValLimit ≤ Generated.Nami
 def realCfg (infl : Infl) : Cfg :=
   { infl := infl, limits := ⟨Generated.Naming.haveValLimit, Generated.Naming.matchLimit⟩ }
 
-theorem realCfg_forwards (infl : Infl) : (realCfg infl).forwards := fun _ _ => rfl
+theorem realCfg_forwards (infl : Infl) : (realCfg infl).forwards := ⟨fun _ _ => rfl, fun _ => rfl⟩
 
 /-- **C07 at the root**: a `RootEntry` (written with `Identity<EmptyConstStr>`) of any well-formed
 definition emits the documented items, with the limits `concat.rs` has now. -/
@@ -465,11 +414,11 @@ theorem c07_sample_group_eq_spec_partial (c : Cfg) (hl : c.limits.have_ ≤ c.li
 /-- **Forwarding impls are covered and forward.** The list of `impl InflectableEntry<NS> for
 <container>` that T-gen finds in metrique-core now is exactly the list of `Wrapper`s the model (and
 the generated crate) goes through; each bounds `T: InflectableEntry<NS>` and calls `T`'s `write`
-(so `Cfg.forwards` is what the code says), and `sample_group` is overridden exactly where the
-model forwards it. A new or altered forwarding impl re-opens this obligation. -/
+and overrides `sample_group` (so `Cfg.forwards` is what the code says). A new or altered forwarding
+impl re-opens this obligation. -/
 theorem c07_forwarding_impls_covered :
     Generated.Naming.forwardingImpls
-      = Wrapper.all.map fun w => (w.rustType, true, w.forwardsSampleGroup) := by
+      = Wrapper.all.map fun w => (w.rustType, true, true) := by
   decide
 
 /-! ## Exactly one item per present, non-ignored field -/
@@ -600,12 +549,19 @@ example : expandDef toyCfg NS.root exArc = specDef toyInfl .preserve [] exArc
     ∧ expandDef arcResetCfg NS.root exArc ≠ specDef toyInfl .preserve [] exArc
     ∧ wfDef exArc = true := by decide
 
-/-- the wrappers that do not forward `sample_group` drop the child's pairs (the code's behaviour;
-excluded from the partial theorem by `sgPrefixFree`) -/
-example : sgDef toyCfg NS.root (.wrap .forceFlag exGrand) = []
+/-- a `ForceFlag` impl without a `sample_group` override (the code before fix 1af396b) -/
+def forceFlagSilentCfg : Cfg :=
+  { toyCfg with wrapSg := fun w => match w with | .forceFlag => false | _ => true }
+
+/-- **Witness that forwarding `sample_group` is needed**: through forwarding impls the wrapped
+child reports its documented pair; a wrapper that keeps the trait's default reports nothing — C07
+("sample-group pairs use the same names") is violated although the written items are right. -/
+example : sgDef toyCfg NS.root (.wrap .forceFlag exGrand) = [(['H', '!'], ['v'])]
     ∧ specSgDef toyInfl .preserve [] (.wrap .forceFlag exGrand) = [(['H', '!'], ['v'])]
-    ∧ sgPrefixFree (.wrap .forceFlag exGrand) = false
-    ∧ sgDef toyCfg NS.root (.wrap .arc exGrand) = [(['H', '!'], ['v'])] := by decide
+    ∧ sgDef forceFlagSilentCfg NS.root (.wrap .forceFlag exGrand) = []
+    ∧ expandDef forceFlagSilentCfg NS.root (.wrap .forceFlag exGrand)
+        = specDef toyInfl .preserve [] (.wrap .forceFlag exGrand)
+    ∧ sgPrefixFree (.wrap .forceFlag exGrand) = true := by decide
 
 /-- a concatenation beyond the limit: static value unavailable, heap path taken, same string -/
 example : (CStr.cat (.cat (.leaf []) (.leaf ['a', 'b', 'c'])) (.leaf ['d', 'e'])).haveVal 4 = false
